@@ -48,16 +48,17 @@ func CaseDir(tag string) string {
 
 // Cfg describes one history.
 type Cfg struct {
-	Tag     string
-	Seed    int64
-	Blocks  int
-	Params  world.Params
-	Scripts []string
-	Specs   []world.NodeSpec // replica identities; nil = one validator leader
-	Envs    [][]string
-	Scout   bool
-	KeepAll bool
-	Honest  bool // honest proposer only: nothing is forced into a block past admission
+	Tag       string
+	Seed      int64
+	Blocks    int
+	Params    world.Params
+	Scripts   []string
+	Specs     []world.NodeSpec // replica identities; nil = one validator leader
+	Envs      [][]string
+	Scout     bool
+	KeepAll   bool
+	Honest    bool // honest proposer only: nothing is forced into a block past admission
+	Byzantine int  // percent of the transactions the mempool check refuses that are put into blocks anyway
 	// Schedule knobs
 	Jumps   bool // occasionally jump block time across cycle/year boundaries
 	Absents bool // occasionally starve a validator of votes
@@ -99,6 +100,7 @@ func Run(cfg Cfg) *Result {
 		return res
 	}
 	r.KeepAll = cfg.KeepAll
+	r.ByzPct = cfg.Byzantine
 	res.R = r
 	if cfg.Setup != nil {
 		if err := cfg.Setup(r); err != nil {
